@@ -73,6 +73,8 @@ def evaluate(formula, fam, icpt, d):
         return failure_signature(ex)
     X = np.asarray(X, dtype=float).reshape(len(d), -1)
     M = model_space(d, fam, KINDS, icpt)
+    if not np.isfinite(X).all():
+        return "span"
     if rank(X) != X.shape[1]:
         return "rank-deficient"
     if not same_span(X, M):
@@ -139,7 +141,8 @@ STATEFUL += [   # a factor with a single level in the data adds nothing next to 
     ("0 + f + g1", [("f",), ("g1",)], False), ("0 + g1 + x", [("g1",), ("x",)], False),
     ("0 + poly(x, 2) + poly(z, 2)", [("x_p1",), ("x_p2",), ("z_p1",), ("z_p2",)], False), ("0 + poly(z, 3) + poly(x, 2)", [("z_p1",), ("z_p2",), ("z_p3",), ("x_p1",), ("x_p2",)], False),
 ]
-KINDS2 = dict(KINDS, x_s="num", x_c="num", z_c="num", x_p1="num", x_p2="num", x_q2="num", x_q3="num", g1="cat", z_p1="num", z_p2="num", z_p3="num")
+STATEFUL += [("0 + f:scale(xi)", [("f", "xi_s")], False), ("0 + scale(xb) + g:z", [("xb_s",), ("g", "z")], False), ("0 + scale(xi)", [("xi_s",)], False)]
+KINDS2 = dict(KINDS, xi_s="num", xb_s="num", x_s="num", x_c="num", z_c="num", x_p1="num", x_p2="num", x_q2="num", x_q3="num", g1="cat", z_p1="num", z_p2="num", z_p3="num")
 
 
 def pw(v, p=1):
@@ -154,6 +157,9 @@ def _derived(d):
     e["x_p1"] = d["x"] - d["x"].mean()                          # orthogonal polynomials of degree 1, 2 span the centred x, x^2
     e["x_p2"] = d["x"] ** 2 - (d["x"] ** 2).mean()
     e["g1"] = "only"
+    for c_ in ("xi", "xb"):
+        v_ = d[c_].astype(float)
+        e[c_ + "_s"] = (v_ - v_.mean()) / v_.std()
     for k_ in (1, 2, 3):
         e[f"z_p{k_}"] = d["z"] ** k_ - (d["z"] ** k_).mean()
     e["x_q2"] = d["x"] ** 2
@@ -173,6 +179,8 @@ def _stateful_chunk(task):
     rng = np.random.default_rng(seed)
     d0 = factorial_frame(rng, {"f": ["a", "b", "c"], "g": ["u", "v"], "h": ["p", "q", "r"]}, reps=3)
     d0["g1"] = "only"
+    d0["xi"] = (300 + 40 * d0["x"]).round().astype(np.int16)        # squares of these do not fit the column's own dtype
+    d0["xb"] = 1.7e12 + d0["x"]                                      # far from zero: the spread is 12 digits below the level
     d1, d2 = d0.copy(), d0.copy()
     d1["x"] = d0["x"] * 3 + 10
     d1["z"] = d0["z"] ** 2 + 1
@@ -188,6 +196,9 @@ def _stateful_chunk(task):
                 out[key] = failure_signature(ex)
                 continue
             M = model_space(_derived(d), fam, KINDS2, icpt)
+            if not np.isfinite(X).all():
+                out[key] = "span"           # (NaN / inf columns span nothing)
+                continue
             out[key] = "rank-deficient" if rank(X) != X.shape[1] else "ok" if same_span(X, M) else "span"
     return out
 
